@@ -1,6 +1,7 @@
 package harness
 
 import (
+	"context"
 	"bytes"
 	"runtime"
 	"runtime/debug"
@@ -49,6 +50,16 @@ func allocDuring(f func()) uint64 {
 	return b.TotalAlloc - a.TotalAlloc
 }
 
+var c04Keys = []tq.ContextKey{tq.ContextReqID, tq.ContextSessionID, tq.ContextConnRemoteAddr, tq.ContextConnLocalAddr, tq.ContextUser, tq.ContextRemoteAddr, tq.ContextPort}
+
+var c04Ctx = func() context.Context {
+	ctx := context.Background()
+	for _, k := range c04Keys {
+		ctx = context.WithValue(ctx, k, "v-"+string(k))
+	}
+	return ctx
+}()
+
 func checkC04(t failer, c *codec, in []byte, spare int, label string, prev ...[]byte) {
 	ev.Eval()
 	cc := c04Case{Codec: c.name, Bytes: in, Spare: spare}
@@ -65,6 +76,8 @@ func checkC04(t failer, c *codec, in []byte, spare int, label string, prev ...[]
 	for typ := 1; typ <= 3; typ++ {
 		if p := catch(func() {
 			tq.Request{Header: tq.Header{Type: tq.HeaderType(typ)}, Body: input}.Fields()
+			// and the way the reference handlers call it: with context keys whose values are in the context
+			tq.Request{Header: tq.Header{Type: tq.HeaderType(typ)}, Body: input, Context: c04Ctx}.Fields(c04Keys...)
 		}); p != nil {
 			violation(t, "C04", "Request.Fields", "C04:Request.Fields:panics", cc, "Request.Fields (type %d) panics on %d bytes: %v", typ, len(in), p)
 		}
